@@ -1,4 +1,4 @@
 (** C16 -- lemmas: [ProofsAcl] (predicates, ACLs, hops_from_path), [ProofsMatch] (position-set
     matcher = regular language, fuel adequacy), [ProofsParse] (lexer, Pratt parser), [ProofsText]
     (predicate text form). *)
-From Sci Require Export Policy.ProofsAcl Policy.ProofsMatch.
+From Sci Require Export Policy.ProofsAcl Policy.ProofsMatch Policy.ProofsParse Policy.ProofsText Policy.ProofsOracle.
